@@ -734,6 +734,9 @@ class IoContract(Generic[TermList_t]):
         (g2, used) = g2_t.elim_vars_by_relaxing(g1_t, intvars, simplify, tactics_order)
         tactics_used.append(used)
         allguarantees = g1 | g2
+        # guarantees that mention no internal variable must survive: elimination may have found them redundant
+        # next to the other side's guarantees or next to a term that it then had to drop
+        allguarantees |= (g1_t - g1_t.get_terms_with_vars(intvars)) | (g2_t - g2_t.get_terms_with_vars(intvars))
         (allguarantees, used) = allguarantees.elim_vars_by_relaxing(assumptions, intvars, simplify, tactics_order)
         tactics_used.append(used)
 
